@@ -21,6 +21,14 @@ PROPERTIES = {
             "request times are non-decreasing along a history (Instant::now() is monotone)",
         ],
     },
+    "C10": {
+        "units": ["c10_template"],
+        "level": "proof",
+        "explanation": "Template::from_str_with_tab_width (the whole parsing automaton, every arm) extracted from src/style.rs and verified by Verus: no unwrap / parse / index can panic for any input string (totality), with the automaton invariants (a placeholder is the last part while its options are parsed; the key is non-empty) and the order-preservation obligation that literal text already emitted or pending is never changed and new literal text is only appended.",
+        "level_text": "Deductive proof (Verus), for every input string and every loop iteration, that parsing returns Ok or Err without panicking and that the literal output of the parser state only ever grows at its end (in-order concatenation); the loop is covered by an inductive invariant, not by a bound.",
+        "level_note": "Assumed: str::parse::<u16> (Ok exactly for digit strings with value <= 65535), console::Style::from_dotted_str total, char::is_ascii_whitespace, TabExpandedString::new opaque. Not decided here: that exactly the grammar's literal characters and placeholder fields are produced (the full automaton-equals-grammar proof) and that format_state renders one output line per template line -- the replay driver evaluates that clause on a family of well-formed templates as a sanity check only.",
+        "assumptions": ["R4 arm duplication, R5 helpers (parse_u16, take_string), R15 Cow as String"],
+    },
     "C14": {
         "units": ["c14_style"],
         "level": "proof",
@@ -50,6 +58,9 @@ WITNESS = {
     "c05_limiters/RateLimiter::allow": ["rl_allow", "rl_window"],
     "c05_limiters/RateLimiter::new": ["rl_new"],
     "c05_limiters/AtomicPosition::allow": ["pos_allow"],
+    "c10_template/Template::from_str_with_tab_width#safety": ["template_total", "template_order"],
+    "c10_template/Template::from_str_with_tab_width#C10-literal": ["template_order"],
+    "c10_template/Template::from_str_with_tab_width": ["template_order", "template_total"],
     "c14_style/ProgressStyle::tick_strings": ["style_build tick_strings"],
     "c14_style/ProgressStyle::progress_chars": ["style_build progress_chars"],
     "c14_style/ProgressStyle::tick_chars": ["style_build tick_chars"],
